@@ -114,6 +114,7 @@ static void apply_m(djinterop::database& db, members_model& m, std::vector<djint
         }
     }
     // an operation on a removed crate or track: whether it throws or not, it must leave the relation as it was (checked below)
+    verif_hook("raw-tables");      // C11: independent reader of the stored tables (symbolic runs), before the API-level comparison
     check_members(db, m, hc, ht);
 }
 static void run_members(djinterop::database& db)
